@@ -190,7 +190,12 @@ def run_aligner(case, R):
         if not instr.is_library_exception(e):
             raise
         R.count(f'{which} raised {type(e).__name__}: {str(e)[:70]}')
-        R.ok('C14.raised')
+        if mask.dtype.kind == 'f':
+            # "for all real masks ... including constant, zero and tied rows": a floating-point mask always has a mapping (NumPy refusing an
+            # operation on boolean / narrow integer masks is an explicit exception about the dtype, counted above)
+            R.fail('C14.mapping', f'mapping/{which}/raised/{metric}', f'{which} aligner ({metric}, {alg}) raised {type(e).__name__} on a finite real mask ({case["mask"]}): {str(e)[:80]}', **info)
+        else:
+            R.ok('C14.raised')
         return
     mapping = np.asarray(mapping)
     okp = mapping.shape == (K, F) and conds.is_perm_columns(mapping)
